@@ -74,7 +74,10 @@ func (dw *DiskWriter) Wait(ctx context.Context) error {
 	if err := dw.eg.Wait(); err != nil {
 		return err
 	}
-	return filepath.WalkDir(dw.dest, func(path string, d gofs.DirEntry, prevErr error) error {
+	// dest itself may be a symlink to the directory that was written to: the
+	// trailing separator makes the walk start behind it instead of stopping
+	// at the link (the paths it reports are still joined from dw.dest)
+	return filepath.WalkDir(dw.dest+string(filepath.Separator), func(path string, d gofs.DirEntry, prevErr error) error {
 		if prevErr != nil {
 			return prevErr
 		}
